@@ -118,13 +118,19 @@ pub fn run_isolated(kind: &str, tier: &str, total: usize, workers: usize, extra:
         extra.truncate(p);
     }
     let extra = &extra[..];
-    let results: Vec<Vec<CaseOut>> = crate::explore::par_map(&ranges, workers, |&(start, end)| {
+    let parent_root = crate::explore::scratch_root();
+    let parent_name = parent_root.file_name().unwrap().to_string_lossy().to_string();
+    let indexed: Vec<(usize, (usize, usize))> = ranges.iter().cloned().enumerate().collect();
+    let results: Vec<Vec<CaseOut>> = crate::explore::par_map(&indexed, workers, |&(wi, (start, end))| {
+        // same length as the parent's scratch root, distinct per worker
+        let wroot = parent_root.with_file_name(format!("{}-w{:02}", &parent_name[..parent_name.len() - 4], wi % 99));
         let mut out = vec![];
         let mut next = start;
         while next < end {
             let started_at = next;
             let mut cmd = Command::new(&exe);
             cmd.arg("worker").arg(kind).arg(tier).arg(next.to_string()).arg(end.to_string()).args(extra);
+            cmd.env("VERIF_SCRATCH", &wroot);
             cmd.stdout(Stdio::piped()).stderr(Stdio::piped());
             let mut child = cmd.spawn().expect("spawn worker");
             let stdout = child.stdout.take().unwrap();
@@ -154,6 +160,7 @@ pub fn run_isolated(kind: &str, tier: &str, total: usize, workers: usize, extra:
             }
             let status = child.wait().expect("wait worker");
             let err = errh.join().unwrap_or_default();
+            let _ = std::fs::remove_dir_all(&wroot);
             if done {
                 break;
             }
